@@ -463,7 +463,13 @@ func (e *Exec) rangeNext(itv Value, x *ssa.Next) Value {
 	switch it := o.Data.(type) {
 	case *mapIter:
 		if it.m == nil || it.pos >= len(it.order) {
-			return Tuple{smt.False, e.zero(x.Type().(*types.Tuple).At(1).Type()), e.zero(x.Type().(*types.Tuple).At(2).Type())}
+			zv := func(t types.Type) Value {
+				if b, ok := t.(*types.Basic); ok && b.Kind() == types.Invalid {
+					return nil
+				}
+				return e.zero(t)
+			}
+			return Tuple{smt.False, zv(x.Type().(*types.Tuple).At(1).Type()), zv(x.Type().(*types.Tuple).At(2).Type())}
 		}
 		i := it.order[it.pos]
 		it.pos++
